@@ -31,6 +31,8 @@ RULE = ('Hypothesis generates per-file packages (n_wav 2..4 quick / 2..7 thoroug
         'Entry "cube": cube packages fitted with wavelength "filters" requested at / near / exactly between tabulated '
         'wavelengths. Non-trivial (mono) = package with >= 3 wavelengths and >= 2 models (chunk sizes that do not divide the '
         'window and single-wavelength windows then occur); (cube) = a requested wavelength that is not tabulated.')
+RULE += (' ' + 'Relation: a tabulated wavelength lying exactly on a window end is emitted for all such windows or for none.')
+RULE += (' ' + 'The window ends are handed over as quantities in micron, nm, mm, cm or Angstrom.')
 ASSUMPTIONS = [
     'a wavelength exactly on a window end may be present or absent (docstring says above/below, the property says inside)',
     'for a window that holds no tabulated wavelength an exception is accepted, but no file may be written',
@@ -44,7 +46,19 @@ def mono_cases(draw, max_wav):
     nw = draw(st.sampled_from(list(range(max_wav, 1, -1))))
     pkg = draw(convpkg.abstract_packages(max_models=4, max_ap=3, min_wav=nw, max_wav=nw))
     pkg['cube_dtype'] = 'f8'
-    return {'pkg': pkg}
+    # the unit the window ends are handed over in (the arguments are astropy quantities; the default is typed in micron)
+    return {'pkg': pkg, 'win_unit': draw(st.sampled_from(['um', 'um', 'nm', 'mm', 'AA', 'cm']))}
+
+
+WIN_UNITS = {'um': ('micron', 1.), 'nm': ('nm', 1e3), 'mm': ('mm', 1e-3), 'AA': ('Angstrom', 1e4), 'cm': ('cm', 1e-4)}
+
+
+def window_end(value_um, win_unit):
+    """(quantity in win_unit, whether it is exactly value_um micron once astropy converts it back)"""
+    from astropy import units as u
+    name, factor = WIN_UNITS[win_unit]
+    q = (value_um * factor) * u.Unit(name)
+    return q, float(q.to(u.micron).value) == value_um
 
 
 def windows(wav):
@@ -74,6 +88,7 @@ def run_mono(case, ctx):
     order = convpkg.table_order(pkg, 'v1')
     labels = {'n_wav=%d' % nw, 'n_ap=%d' % nap, 'storage_' + pkg['storage']}
     labels.add('sed_layout_' + pkg.get('sed_layout', 'flat'))
+    labels.add('window_unit_' + case.get('win_unit', 'um'))
     if pkg.get('par_gz'):
         labels.add('parameters.fits.gz')
     todo = case.get('only')
@@ -98,11 +113,13 @@ def run_mono(case, ctx):
                     shutil.rmtree(cdir)
                 max_ram = (chunk + 0.5) * 8. * nm * nap / 1024. ** 3
                 kw = {'max_ram': max_ram}
+                wunit = case.get('win_unit', 'um')
+                exact = {'lower': True, 'upper': True}
                 if lo is not None:
-                    kw['wav_min'] = lo * u.micron
+                    kw['wav_min'], exact['lower'] = window_end(lo, wunit)
                 if hi is not None:
-                    kw['wav_max'] = hi * u.micron
-                what = 'window [%s, %s] micron, chunk size %d, wavelengths %r' % (lo, hi, chunk, wav)
+                    kw['wav_max'], exact['upper'] = window_end(hi, wunit)
+                what = 'window [%s, %s] micron (given in %s), chunk size %d, wavelengths %r' % (lo, hi, WIN_UNITS[wunit][0], chunk, wav)
                 try:
                     try:
                         with quiet():
@@ -129,7 +146,7 @@ def run_mono(case, ctx):
                     missing = [w for w in inside if w not in got]
                     extra = [w for w in got if w not in allowed]
                     for kind, end in (('lower', lo), ('upper', hi)):
-                        if end is not None and end in wav and (lo != hi):
+                        if end is not None and end in wav and (lo != hi) and exact[kind]:
                             seen = on_end[kind]
                             seen.setdefault(end in got, (lo, hi))
                             if len(seen) == 2:
